@@ -21,21 +21,23 @@ pub enum Host {
     MdLink,
     HtmlComment,
     MdHtml,
+    /// `/*** … ***/`: a banner comment whose lines begin with a run of stars.
+    JsBanner,
 }
 
 impl Host {
-    const ALL: [Host; 8] = [Host::PyLine, Host::RsLine, Host::RsDoc, Host::JsBlock, Host::RsBlock, Host::MdLink, Host::HtmlComment, Host::MdHtml];
+    const ALL: [Host; 9] = [Host::PyLine, Host::RsLine, Host::RsDoc, Host::JsBlock, Host::RsBlock, Host::MdLink, Host::HtmlComment, Host::MdHtml, Host::JsBanner];
     fn file(self) -> &'static str {
         match self {
             Host::PyLine => "x.py",
             Host::RsLine | Host::RsDoc | Host::RsBlock => "x.rs",
-            Host::JsBlock => "x.js",
+            Host::JsBlock | Host::JsBanner => "x.js",
             Host::MdLink | Host::MdHtml => "x.md",
             Host::HtmlComment => "x.html",
         }
     }
     fn is_block(self) -> bool {
-        matches!(self, Host::JsBlock | Host::RsBlock | Host::HtmlComment | Host::MdHtml)
+        matches!(self, Host::JsBlock | Host::RsBlock | Host::HtmlComment | Host::MdHtml | Host::JsBanner)
     }
     fn delims(self) -> (&'static str, &'static str) {
         match self {
@@ -43,6 +45,7 @@ impl Host {
             Host::RsLine => ("//", ""),
             Host::RsDoc => ("///", ""),
             Host::JsBlock | Host::RsBlock => ("/*", "*/"),
+            Host::JsBanner => ("/***", "***/"),
             Host::MdLink => ("[//]: # (", ")"),
             Host::HtmlComment | Host::MdHtml => ("<!--", "-->"),
         }
@@ -52,7 +55,7 @@ impl Host {
         match self {
             Host::PyLine => format!("{key} = 1"),
             Host::RsLine | Host::RsDoc | Host::RsBlock => format!("const {}: u8 = 1;", key.to_uppercase()),
-            Host::JsBlock => format!("{key};"),
+            Host::JsBlock | Host::JsBanner => format!("{key};"),
             Host::MdLink | Host::MdHtml | Host::HtmlComment => format!("{key} text"),
         }
     }
@@ -173,8 +176,10 @@ pub fn build(c: &Case) -> Built {
     text.push_str(indent);
     text.push_str(open);
     text.push(' ');
+    // Continuation lines of the banner host begin with a run of stars.
+    let cont = if c.host == Host::JsBanner { " ** " } else { "   " };
     for i in 0..c.before {
-        text.push_str(&format!("before {i}\n{indent}   "));
+        text.push_str(&format!("before {i}\n{indent}{cont}"));
     }
     if c.multibyte {
         text.push_str("é≤ ");
@@ -189,7 +194,7 @@ pub fn build(c: &Case) -> Built {
     }
     let gt = text.len() - 1;
     for i in 0..c.after {
-        text.push_str(&format!("\n{indent}   after {i}"));
+        text.push_str(&format!("\n{indent}{cont}after {i}"));
     }
     if !close.is_empty() {
         if close != ")" {
@@ -567,7 +572,7 @@ pub fn all_cases(thorough: bool) -> Vec<Case> {
 }
 
 pub fn run(cfg: &Cfg, sink: &Arc<Sink>) -> Report {
-    let mut report = Report::new("cases = full product of host comment form {Python #, Rust //, Rust ///, JS /* */, Rust /* */, Markdown link-reference, HTML comment, HTML comment in Markdown} × comment lines before the tag 0..2 × after the tag 0..2 × start tag on 1, 2 or 4 lines × content starting on the tag's line × indentation {none, 2 spaces, tab} × multi-byte text before tag and key × rule {sorted, sorted by regex group mid-line, unique, unique by regex group, pattern → key range; line-count, check-lua, affects (all-lines-added diff) → tag range} × offending content line 1..3; the reported range must equal the constructed position of the offending key (first to last byte) or of the start tag (`<` to `>`); non-trivial = every applicable case");
+    let mut report = Report::new("cases = full product of host comment form {Python #, Rust //, Rust ///, JS /* */, Rust /* */, Markdown link-reference, HTML comment, HTML comment in Markdown, JS banner comment /*** … ***/ with ** continuation lines} × comment lines before the tag 0..2 × after the tag 0..2 × start tag on 1, 2 or 4 lines × content starting on the tag's line × indentation {none, 2 spaces, tab} × multi-byte text before tag and key × rule {sorted, sorted by regex group mid-line, unique, unique by regex group, pattern → key range; line-count, check-lua, affects (all-lines-added diff) → tag range} × offending content line 1..3; the reported range must equal the constructed position of the offending key (first to last byte) or of the start tag (`<` to `>`); non-trivial = every applicable case");
     report.assume("check-ai ranges are covered by C19's exploration (same tag range code path as check-lua)");
     let thorough = cfg.tier == crate::core::Tier::Thorough;
     let cases = all_cases(thorough);
